@@ -3,6 +3,7 @@ package props
 import (
 	"bytes"
 	"fmt"
+	"regexp"
 	"sort"
 	"strings"
 
@@ -58,6 +59,7 @@ func (c04) Gen(r *sim.Rand, c *sim.Case, tier string) {
 	c.Cfg["features"] = flags
 	ops := []sim.Op{{K: "foreign", I: []int{int(r.Uint64() >> 40), flags, r.Intn(3)}}}
 	g := world.NewGen(r)
+	g.Extra = true
 	g.Alpha = []int{0, 4}
 	g.Fam = world.FBody
 	for _, f := range []int{world.FImage, world.FHF, world.FList, world.FNote, world.FPage, world.FStyle, world.FRemove, world.FProp, world.FParaFmt, world.FTable} {
@@ -97,9 +99,9 @@ func c04regenerated(kinds map[string]bool) []string {
 			out = append(out, "word/header", "word/_rels/header")
 		case "ftr", "ftrpn", "fftr":
 			out = append(out, "word/footer", "word/_rels/footer")
-		case "li", "bullet", "numbered", "t.celllist":
+		case "li", "bullet", "numbered", "t.celllist", "mllist":
 			out = append(out, "word/numbering.xml")
-		case "fn":
+		case "fn", "fnrun":
 			out = append(out, "word/footnotes.xml")
 		case "en":
 			out = append(out, "word/endnotes.xml")
@@ -250,6 +252,15 @@ func (c04) Exec(c *sim.Case, env *Env) []sim.Violation {
 		// (4) run texts of the producer survive
 		if root, err := inspect.ParseXML(got.Parts["word/document.xml"]); err == nil && !destructive(kinds[ds.Slot]) {
 			have := mainRunTexts(root)
+			// a footnote attached to an existing run (AddFootnoteToRun) appends its reference mark "[n]" to that run's text:
+			// that run is the edit's target, its text is found again under the marks
+			if kinds[ds.Slot]["fnrun"] {
+				for t, n := range have {
+					if base := fnMarks.ReplaceAllString(t, ""); base != t {
+						have[base] += n
+					}
+				}
+			}
 			for _, t := range ds.Foreign.RunTexts {
 				if have[t] == 0 {
 					add("run-text-lost", c04textClass(ds.Foreign, t), fmt.Sprintf("run text %q of the opened package is not in the saved main part", clip(t)))
@@ -269,6 +280,8 @@ func (c04) Exec(c *sim.Case, env *Env) []sim.Violation {
 	}
 	return viol
 }
+
+var fnMarks = regexp.MustCompile(`(\[[0-9]+\])+$`)
 
 // destructive: an applied edit legitimately removes or replaces existing text.
 func destructive(kinds map[string]bool) bool {
